@@ -74,7 +74,22 @@ func brokenGo(r *sim.Rng, valid []byte, pkg string) ([]byte, string) {
 	}
 	body := append([]byte(nil), valid[start:]...)
 	head := valid[:start]
-	kind := sim.Pick(r, []string{"unbalanced-brace", "deleted-span", "garbage-tokens", "flipped-byte", "nul-bytes", "dup-decls", "missing-imports"})
+	kind := sim.Pick(r, []string{"unbalanced-brace", "deleted-span", "garbage-tokens", "flipped-byte", "nul-bytes", "dup-decls", "missing-imports",
+		"bom-prefix", "build-constraint-ignore", "crlf", "leading-comment-block", "only-package-clause", "package-clause-no-newline"})
+	switch kind {
+	case "bom-prefix":
+		return append([]byte("\xef\xbb\xbf"), valid...), kind
+	case "build-constraint-ignore":
+		return append([]byte("//go:build ignore\n\n"), valid...), kind
+	case "crlf":
+		return bytes.ReplaceAll(valid, []byte("\n"), []byte("\r\n")), kind
+	case "leading-comment-block":
+		return append([]byte("/*\n * left by an editor\n */\n\n"), valid...), kind
+	case "only-package-clause":
+		return append(append([]byte(nil), head...), '\n'), kind
+	case "package-clause-no-newline":
+		return bytes.TrimRight(head, "\n"), kind
+	}
 	switch kind {
 	case "unbalanced-brace":
 		body = append(body, []byte("\nfunc broken( {\n\tif x {\n")...)
@@ -226,6 +241,10 @@ func genC12(cfg Config, ws *WorldSet, i int) C12Case {
 			iv.Dry = false
 			steps = append(steps, crashStep(r, iv, kind, pickK(r, L), sim.Pick(r, []string{"as-written", "as-written", "zero-filled-tail", "cut-to-4096", "write-lost"})))
 		case 5:
+			if r.Chance(1, 5) {
+				steps = append(steps, Step{Op: "chmod", Path: outPath, K: sim.Pick(r, []int{0o444, 0o600, 0o755, 0o200}), Note: "mode-changed"})
+				break
+			}
 			steps = append(steps, Step{Op: "truncate", Path: outPath, K: pickK(r, L), Note: "truncation"})
 		case 6:
 			steps = append(steps, Step{Op: "zerotail", Path: outPath, K: pickK(r, L), Note: "zero-filled-tail"})
@@ -374,6 +393,10 @@ func execC12(env *sim.Env, c C12Case) CaseResult {
 			lastResidue = "stale-output-after-edit"
 			st.Inc("n:step:edit")
 			logParts = append(logParts, "edit")
+		case "chmod":
+			ExecSteps(env, root, []Step{s}, st)
+			st.Inc("n:step:mode-changed")
+			logParts = append(logParts, "chmod")
 		case "truncate", "zerotail", "write":
 			// corruption of whatever is at the output path; truncation never extends
 			p := w(root, s.Path)
@@ -597,7 +620,7 @@ func runC12(cfg Config, args []string) int {
 		return ReplayCase("C12", args[1], func(c C12Case) CaseResult { return execC12(env, c) })
 	}
 	nFix, nSyn := cfg.N(3, 16), cfg.N(5, 44)
-	worlds, err := BuildWorlds(cfg, "C12", nFix, nSyn, 20, false, 4)
+	worlds, err := BuildWorlds(cfg, "C12", nFix, nSyn, 20, false, 6)
 	if err != nil {
 		rep0.InfraErr = err
 		return Finish(rep0)
